@@ -47,6 +47,8 @@ EnvStep ==
           [] e.a = "TSend" -> TargetSend(1)
           [] e.a = "TFin" -> TargetFin(1)
           [] e.a = "TRst" -> TargetRst(1)
+          [] e.a = "TClose" -> TargetClose(1)
+          [] e.a = "CRst" -> ClientRst(1)
           [] e.a = "Tick" -> Tick
           [] e.a = "CloseListener" -> CloseListener
   /\ si' = si + 1 /\ l' = l
